@@ -282,7 +282,7 @@ def pair_kinarow(ctx, R="C07.pair"):
               "_KInARow all windows", "every window must conform", "checker no longer requires all windows to conform")
     ind = ctx.fn("constraint:_KInARow._potential_counts_conform_individually")
     t = str(sym([s for s in ind.node.body if isinstance(s, ast.Return)][0].value))
-    ctx.check(t == "all(map(lambda n: fn(n, self.k), counts))", R, ind, "individual comparison %s" % t,
+    ctx.check(t == "all([fn(_b0, self.k) for _b0 in counts])", R, ind, "individual comparison %s" % t,
               "every run length n is compared as fn(n, k)", "_potential_counts_conform_individually is `%s`" % t)
 
     for cname, (length, kind, bound, cmp_) in KFAMILY.items():
@@ -331,7 +331,7 @@ def pair_kinarow(ctx, R="C07.pair"):
     rng = [l for l in Roles(seg).for_loops() if l["target"] == "run_len"]
     t = str(sym([s for s in chk.node.body if isinstance(s, ast.Return)][0].value))
     ctx.check(len(rng) == 1 and str(rng[0]["iter"]) == "range(k, 1 + len(segment_vars), k)" and
-              t == "all([((c)%(self.k) == 0) for c in counts])", R, enc, "ExactlyKMultipleInARow run lengths",
+              t == "all([((_b0)%(self.k) == 0) for _b0 in counts])", R, enc, "ExactlyKMultipleInARow run lengths",
               "run lengths k, 2k, ... on both sides", "ExactlyKMultipleInARow: encoder run lengths %s, checker %s" % (
                   [str(l["iter"]) for l in rng], t))
 
@@ -359,7 +359,7 @@ def crossing_facts(ctx, R="C07.crossing"):
     cw = [s for s in ra.stmts if isinstance(s, ast.Assign) and dotted(s.targets[0]) == "combination_weights"]
     ctx.require(len(cw) == 1, "Cross.apply: combination_weights not found")
     t = str(ra.at(cw[0], cw[0].value))
-    ctx.check(t.startswith("[block.sustain_count(c[0])*combination_weight(tuple(c.values())) for c in "), R, ca, "F3 SAT weight",
+    ctx.check(t.startswith("[block.sustain_count(c[0])*combination_weight(tuple(_b0.values())) for _b0 in "), R, ca, "F3 SAT weight",
               "F3: per-combination weight = combination_weight x sustain count (crossing weight applied per chunk)",
               "Cross.apply per-combination weight is `%s`" % t[:120], cw[0])
     reqs = rw.calls_named("LowLevelRequest")
@@ -430,9 +430,9 @@ def crossing_facts(ctx, R="C07.crossing"):
     for s in ren.stmts:
         if isinstance(s, ast.Assign) and dotted(s.targets[0]) in ("self.crossing_sizes", "self.preamble_sizes", "self.crossing_weights"):
             vals[dotted(s.targets[0])] = str(ren.at(s, s.value))
-    ctx.check(vals == {"self.crossing_sizes": "[block.crossing_size(c) for c in block.crossings]",
-                       "self.preamble_sizes": "[block.preamble_size(c) for c in block.crossings]",
-                       "self.crossing_weights": "[block.crossing_weight(c) for c in block.crossings]"}, R, en, "enumerator geometry",
+    ctx.check(vals == {"self.crossing_sizes": "[block.crossing_size(_b0) for _b0 in block.crossings]",
+                       "self.preamble_sizes": "[block.preamble_size(_b0) for _b0 in block.crossings]",
+                       "self.crossing_weights": "[block.crossing_weight(_b0) for _b0 in block.crossings]"}, R, en, "enumerator geometry",
               "the enumerator's per-crossing sizes / preambles / weights are the block's", "enumerator geometry is %s" % vals)
 
     # ---- the shared counter
